@@ -26,6 +26,9 @@ def cfgs(ctx):
     add('ring3', Kind='ring', K=3, MaxJoins=4)
     add('ring4', Kind='ring', K=4, MaxJoins=4, MaxRep=1)
     add('2x2-p2', W1=2, W2=2, NN=3, MaxJoins=4, MaxRep=1)
+    # closed bands (annuli): two patches sharing two faces; three patches in a cycle without a common vertex
+    add('band2', Kind='band', K=2, NN=3, MaxJoins=3)
+    add('band3', Kind='band', K=3, MaxJoins=4, MaxRep=1)
     # 3-D, interface normal to the MIDDLE axis, asymmetric flips (one of the two face axes reflected)
     add('1x2x1-3d-flipA', D=3, W1=1, W2=2, W3=1, ReflSeed=8, MaxJoins=2)
     add('1x2x1-3d-flipB', D=3, W1=1, W2=2, W3=1, ReflSeed=32, MaxJoins=2)
@@ -53,6 +56,21 @@ def make_patches(cx):
         if cx['kind'] == 'ring':
             geo = geometry.unit_square() if D == 2 else geometry.unit_cube()
             patches.append((kvs, geo))
+            continue
+        if cx['kind'] == 'band':
+            # sector k of an annulus; control points from ONE table of M angles (shared faces coincide bitwise, also at the
+            # closing seam); axis 0 = radial, axis 1 = angular (clockwise, so that det J > 0)
+            K = cx['NP']
+            M = K * (NN - 1)
+            ang = [-2.0 * np.pi * j / M for j in range(M)]
+            tab = [(np.cos(a), np.sin(a)) for a in ang]
+            coeffs = np.zeros((NN, NN, 2))
+            for i0 in range(NN):
+                r = 1.0 + i0 / (NN - 1)
+                for i1 in range(NN):
+                    cth, sth = tab[(p * (NN - 1) + i1) % M]
+                    coeffs[i0, i1] = [r * cth, r * sth]
+            patches.append((kvs, bspline.BSplineFunc(kvs, coeffs)))
             continue
         cell = np.unravel_index(p, cx['W'])
         refl = cx['refl'][p]
@@ -147,9 +165,24 @@ def replay(ctx, name, cx, fin, patches, use_names):
             ctx.violation('exception %s patch_to_global(j_global)/global_to_patch %s' % (type(ex).__name__, sig_base),
                           {'error': repr(ex)})
             return
+    # boundary data address the glued dofs: the Dirichlet indices of a face are the global indices (just verified against
+    # the model's classes) of the face dofs
+    try:
+        for p in sorted({0, NPt - 1}):
+            bd = (0, 0)
+            bc = MP.compute_dirichlet_bcs([(p, bd, lambda *X: 1.0 + 0 * X[0])])
+            loc = assemble.boundary_dofs(patches[p][0], bd, ravel=True)
+            wantidx = sorted(set(int(gidx[p * N + int(i)]) for i in loc))
+            if sorted(int(i) for i in bc[0]) != wantidx or not np.allclose(bc[1], 1.0):
+                ctx.violation('compute_dirichlet_bcs addresses the wrong global dofs ' + sig_base,
+                              {'complex': name, 'fin': fin, 'patch': p, 'got': [int(i) for i in bc[0]], 'expected': wantidx})
+                return
+    except Exception as ex:
+        ctx.violation('exception %s compute_dirichlet_bcs %s' % (type(ex).__name__, sig_base), {'error': repr(ex)})
+        return
     # Multipatch(patches, automatch=True) = all detected interfaces joined + finalize: the numbering of the full history
     # (only lattice complexes are embedded geometrically; the rings are abstract gluings whose patches coincide in space)
-    if cx['kind'] == 'lattice' and sorted(set(hist)) == list(range(1, len(cx['interfaces']) + 1)) and len(hist) == len(cx['interfaces']):
+    if cx['kind'] in ('lattice', 'band') and sorted(set(hist)) == list(range(1, len(cx['interfaces']) + 1)) and len(hist) == len(cx['interfaces']):
         try:
             MA = assemble.Multipatch(patches, automatch=True)
             ga = np.concatenate([MA.patch_to_global_idx(p) for p in range(NPt)])
@@ -200,7 +233,7 @@ def check_detect(ctx, name, cx, patches, perm=None):
                       {'error': repr(ex)})
         return
     W, NN = cx['W'], cx['NN']
-    want = int(np.prod([w * (NN - 1) + 1 for w in W]))
+    want = int(np.prod([w * (NN - 1) + 1 for w in W])) if cx['kind'] == 'lattice' else NN * cx['NP'] * (NN - 1)   # band: closed
     if n != want:
         ctx.violation('automatch-numdofs complex=%s perm=%s' % (name, perm), {'numdofs': n, 'expected': want})
 
@@ -282,6 +315,8 @@ def run(ctx):
             replay(ctx, name, cx, fin, patches, use_names=(n % 2 == 0))
             ctx.case((name, tuple(fin['hist'])), nontrivial=len(fin['hist']) >= 2,
                      sample={'complex': name, 'hist': fin['hist'], 'numdofs': fin['numdofs']} if n == len(fins) // 2 else None)
+        if cx['kind'] == 'band':
+            check_detect(ctx, name, cx, patches)
         if cx['kind'] == 'lattice':
             check_detect(ctx, name, cx, patches)
             if ctx.thorough or cx['NP'] <= 4:
